@@ -23,8 +23,8 @@ echo "== demo with patch" >>"$LOG"
 # suite with patch, demo files removed
 for f in "$SEED"/*.rs; do [ -e "$f" ] && rm -f $WT/dropshot/tests/$(basename $f) $WT/dropshot/examples/$(basename $f); done
 echo "== suite with patch" >>"$LOG"
-cargo test --workspace --offline --no-fail-fast 2>&1 | grep -E "^test result|FAILED|failed|error(\[|:)" >>"$LOG"
-SUITE_FAIL=$(sed -n '/== suite with patch/,$p' "$LOG" | grep -cE "FAILED|failed|error(\[|:)")
+cargo test --workspace --offline --no-fail-fast 2>&1 | grep -E "^test result|FAILED|^error" >>"$LOG"
+SUITE_FAIL=$(sed -n "/== suite with patch/,\$p" "$LOG" | grep -cE "FAILED|[1-9][0-9]* failed|^error")
 SUITE_OK=$(sed -n '/== suite with patch/,$p' "$LOG" | grep -c "^test result: ok")
 git checkout -- . && git clean -fdq -e target
 echo "{\"seed\":\"$NAME\",\"demo_clean_exit\":$R_CLEAN,\"demo_patched_exit\":$R_PATCHED,\"suite_ok_lines\":$SUITE_OK,\"suite_fail_lines\":$SUITE_FAIL}" | tee "$SEED/verify.json"
